@@ -54,8 +54,32 @@
 #ifndef VF_THROW
 #define VF_THROW 0
 #endif
+#ifndef VF_SEQ_ORDER
+#define VF_SEQ_ORDER 0  // 1: sequential engine; main plays worker and getters one after the other (order symbolic)
+#endif
+#ifndef VF_MAIN_GET
+#define VF_MAIN_GET 1  // 1: after the join main calls get() on its own future (if it kept it) and compares addresses
+#endif
 
+#define VF_CHECK_BUSY 1
 #include "sba_stub.h"
+
+static int g_who;  // sequential mode: the role main is playing
+static inline int self_id() {
+  return VF_SEQ_ORDER ? g_who : vf_self();
+}
+// marks the calling model thread as being inside an operation on the shared state (see sba_stub.h)
+struct Busy {
+  int t;
+  Busy() : t(vf_self()) {
+    VfAtomic a;
+    g_busy[t & 3] = 1;
+  }
+  ~Busy() {
+    VfAtomic a;
+    g_busy[t & 3] = 0;
+  }
+};
 
 // ------------------------------------------------------------------------------------ ghost state
 static int32_t g_runs;          // invocations of the functor
@@ -87,7 +111,7 @@ struct Fn {
     ++g_runs;
     vf_check(g_runs == 1, "functor is invoked a second time");
     vf_check(tag == 77, "functor runs on a live functor object");
-    g_runner = vf_self();
+    g_runner = self_id();
   }
 #if VF_RESULT == 0
   int32_t operator()() {
@@ -194,7 +218,7 @@ static void do_get(Fut& f, int who) {
 #define HAS(mask, k) ((((mask) >> (k)) & 1) != 0)
 template <uint32_t kMask>
 static inline void getter_ops(Fut* f, uint32_t kind, bool thenGet, int who) {
-  int self = vf_self();
+  int self = self_id();
   if (kind == kGet) {
     thenGet = true;
   } else if (HAS(kMask, kWait) && kind == kWait) {
@@ -247,11 +271,17 @@ static uint32_t g_kind[2];
 static bool g_then_get[2];
 
 static void getterA(void*) {
-  getter_ops<VF_OPS_A>(&g_slot[0].f, g_kind[0], g_then_get[0], 0);
+  {
+    Busy b;
+    getter_ops<VF_OPS_A>(&g_slot[0].f, g_kind[0], g_then_get[0], 0);
+  }
   g_slot[0].f.~Fut();  // drops this thread's reference
 }
 static void getterB(void*) {
-  getter_ops<VF_OPS_B>(&g_slot[1].f, g_kind[1], g_then_get[1], 1);
+  {
+    Busy b;
+    getter_ops<VF_OPS_B>(&g_slot[1].f, g_kind[1], g_then_get[1], 1);
+  }
   g_slot[1].f.~Fut();
 }
 
@@ -280,7 +310,10 @@ static void worker(void*) {
   vf_check(g_sched.slot.invoke_ == g_ref_invoke, "harness: the scheduled function is the future's run closure");
   vf_check(*reinterpret_cast<Impl**>(g_sched.slot.buf_) == g_impl, "harness: the closure captured the future's shared state");
 #endif
-  g_impl->run();
+  {
+    Busy b;  // the closure's own reference keeps the shared state alive until run() drops it as its last action
+    g_impl->run();
+  }
 #endif
 }
 
@@ -321,6 +354,30 @@ extern "C" void vf_main() {
   new (&g_slot[1].f) Fut(*f0);
 #endif
 
+#if VF_SEQ_ORDER
+  // task-granularity interleaving: the worker's run of the queued closure and the getters' operations execute one
+  // after the other; the position of the worker is symbolic
+  {
+    uint32_t wpos = vf_range_u32(0, VF_GETTERS);
+    if (dropEarly) {
+      f0->~Fut();
+      f0 = nullptr;
+    }
+    g_who = 1;
+    if (wpos == 0) worker(nullptr);
+    g_who = 2;
+    getterA(nullptr);
+    g_who = 1;
+    if (wpos == 1) worker(nullptr);
+#if VF_GETTERS >= 2
+    g_who = 3;
+    getterB(nullptr);
+    g_who = 1;
+    if (wpos == 2) worker(nullptr);
+#endif
+    g_who = 0;
+  }
+#else
   vf_spawn(worker, nullptr);
   vf_spawn(getterA, nullptr);
 #if VF_GETTERS >= 2
@@ -331,6 +388,7 @@ extern "C" void vf_main() {
     f0 = nullptr;
   }
   vf_join_all();
+#endif
   vf_reach("all threads finished");
 
   // quiescent.  The stored function was run by the worker (or inline by schedule()).
@@ -338,8 +396,10 @@ extern "C" void vf_main() {
   if (f0) {
     vf_check(g_live_blocks == 1 && g_frees == 0, "shared state is alive while a Future still refers to it");
     vf_check(f0->is_ready(), "future is ready after its functor ran");
+#if VF_MAIN_GET
     do_get(*f0, 2);
-#if VF_RESULT != 1
+#endif
+#if VF_RESULT != 1 && VF_MAIN_GET
     for (int i = 0; i < 2; ++i) {
       if (g_addr[i]) {
         vf_check(g_addr[i] == g_addr[2], "every get() returns the same result object");
